@@ -139,9 +139,14 @@ def ensure_facts(tags=None, want_py=True, verbose=False):
     h = tree_hash()
     cdir = os.path.join(CACHE, h)
     os.makedirs(cdir, exist_ok=True)
-    lock = open(os.path.join(CACHE, ".lock"), "w")
+    # one lock per tree: different trees (self-test variants) extract concurrently
+    lock = open(os.path.join(CACHE, ".lock-" + h), "w")
     fcntl.flock(lock, fcntl.LOCK_EX)
     try:
+        try:
+            os.utime(cdir, None)
+        except OSError:
+            pass
         def have(tag):
             if tag == PY_TAG:
                 return (os.path.exists(os.path.join(cdir, "_sas_lexer_rust-py.json"))
@@ -209,12 +214,22 @@ def ensure_facts(tags=None, want_py=True, verbose=False):
                     json.dump({"runs": log}, f, indent=1)
         finally:
             shutil.rmtree(scratch, ignore_errors=True)
-        # keep the cache small: drop other trees' facts (keep the 3 most recent)
+        # keep the cache small: drop other trees' facts (keep the 12 most recently used, never one in use)
         try:
             ents = [os.path.join(CACHE, d) for d in os.listdir(CACHE) if os.path.isdir(os.path.join(CACHE, d))]
             ents.sort(key=os.path.getmtime, reverse=True)
-            for old in ents[6:]:
-                shutil.rmtree(old, ignore_errors=True)
+            for old in ents[12:]:
+                if time.time() - os.path.getmtime(old) < 3600:
+                    continue
+                lk = os.path.join(CACHE, ".lock-" + os.path.basename(old))
+                try:
+                    with open(lk, "w") as lf:
+                        fcntl.flock(lf, fcntl.LOCK_EX | fcntl.LOCK_NB)
+                        shutil.rmtree(old, ignore_errors=True)
+                        fcntl.flock(lf, fcntl.LOCK_UN)
+                    os.remove(lk)
+                except OSError:
+                    pass
         except OSError:
             pass
         return cdir, h
